@@ -74,8 +74,10 @@ def write_order(ctx):
     # (a)
     for fn in ('configure', 'regenerate'):
         f = F.fn(D + fn)
-        cb = F.calls_to(f, 'configure_build', depth=0)
-        wr = [e for e in F.effects(f, lambda e: e.name == 'write', depth=0)
+        cb = [e for e in F.calls_to(f, 'configure_build', depth=1)
+              if e.fn.module is f.module]
+        wr = [e for e in F.effects(f, lambda e: e.name == 'write' and
+                                   e.fn.module is f.module, depth=1)
               if has_call(e.all_args(), 'configure_build')]
         ctx.ob(R, fn + '|writers-use-configure_build-result',
                len(cb) >= 1 and len(wr) >= 2, f.node,
